@@ -107,33 +107,35 @@ Fixpoint log10_floor (fuel : nat) (k : Z) (num den : Z) : Z :=
     let lt_next := if 0 <=? k + 1 then num <? den * 10 ^ (k + 1) else num * 10 ^ (- (k + 1)) <? den in
     if negb le then log10_floor f (k - 1) num den else if negb lt_next then log10_floor f (k + 1) num den else k
   end.
-(* fewest significant digits that read back as the same double: D * 10^t *)
-Definition shortest_digits (x : dy) : option (Z * Z) :=
-  let '(num, den) := qabs_num_den x in
-  let k := log10_floor 400 ((Z.log2 num - Z.log2 den) * 3 / 10) num den in
-  let try n :=
-    let t := k - n + 1 in
-    let D := if 0 <=? t then rhe num (den * 10 ^ t) else rhe (num * 10 ^ (- t)) den in
-    let q := if 0 <=? t then inject_Z (D * 10 ^ t) else Qmake D (Z.to_pos (10 ^ (- t))) in
-    match rnd64 q with
-    | Some y => if (Z.eqb (fst y) (Z.abs (fst x)) && Z.eqb (snd y) (snd x))%bool then Some (D, t) else None
-    | None => None
-    end in
-  (fix go (fuel : nat) (n : Z) := match fuel with O => None | S f => match try n with Some r => Some r | None => go f (n + 1) end end) 18%nat 1.
 (* a shortest representation has no trailing zero digit: 10 * 10^t is 1 * 10^(t+1) (met when the value lies just below a power of ten) *)
 Fixpoint strip10 (fuel : nat) (D t : Z) : Z * Z :=
   match fuel with
   | O => (D, t)
   | S f => if (negb (D =? 0) && (D mod 10 =? 0))%bool then strip10 f (D / 10) (t + 1) else (D, t)
   end.
+(* the rational D * 10^t *)
+Definition dec_q (D t : Z) : Q := if 0 <=? t then inject_Z (D * 10 ^ t) else Qmake D (Z.to_pos (10 ^ (- t))).
+(* fewest significant digits that read back as the same double: D * 10^t *)
+Definition shortest_digits (x : dy) : option (Z * Z) :=
+  let '(num, den) := qabs_num_den x in
+  let k := log10_floor 400 ((Z.log2 num - Z.log2 den) * 3 / 10) num den in
+  let try n :=
+    let t0 := k - n + 1 in
+    let D0 := if 0 <=? t0 then rhe num (den * 10 ^ t0) else rhe (num * 10 ^ (- t0)) den in
+    (* the candidate without trailing zero digits (what is printed), checked to read back as x *)
+    let '(D, t) := strip10 20 D0 t0 in
+    match rnd64 (dec_q D t) with
+    | Some y => if (Z.eqb (fst y) (Z.abs (fst x)) && Z.eqb (snd y) (snd x))%bool then Some (D, t) else None
+    | None => None
+    end in
+  (fix go (fuel : nat) (n : Z) := match fuel with O => None | S f => match try n with Some r => Some r | None => go f (n + 1) end end) 18%nat 1.
 (* Rust {} for f64: shortest round-trip digits, positional notation *)
 Definition fmt_shortest (neg_zero : bool) (x : dy) : list ascii :=
   let '(m, e) := x in
   if m =? 0 then (if neg_zero then ["-"%char; "0"%char] else ["0"%char]) else
   match shortest_digits x with
   | None => ["?"%char]
-  | Some (D0, t0) =>
-    let '(D, t) := strip10 20 D0 t0 in
+  | Some (D, t) =>
     let sgn := if m <? 0 then ["-"%char] else [] in
     if 0 <=? t then (sgn ++ show_Zpos (D * 10 ^ t))%list
     else let P := 10 ^ (- t) in let ip := D / P in let fp := D mod P in
